@@ -9,10 +9,11 @@
    reach with a real packet (recorded assumption) */
 #define EXT_LEN_CAP (1 << 30)
 /* ghost: the extension area is the object [verif_xbase, verif_xbase + verif_xn); cursors point INTO it (possibly one
-   past its end when nothing is left), which is_fresh alone cannot express */
+   past its end when nothing is left), which is_fresh alone cannot express.  len is at most what is left of the area
+   (the iterator's replay cursor is handed the length of the repeat region, which ends before the area does). */
 const unsigned char *verif_xbase; int verif_xn;
 #define EXT_CURSOR(p, len) (1 <= verif_xn && verif_xn <= EXT_LEN_CAP && __CPROVER_is_fresh(verif_xbase, verif_xn) && \
-     __CPROVER_pointer_in_range_dfcc(verif_xbase, (p), verif_xbase + verif_xn) && (len) == verif_xn - (PO(p) - PO(verif_xbase)))
+     __CPROVER_pointer_in_range_dfcc(verif_xbase, (p), verif_xbase + verif_xn) && (len) <= verif_xn - (PO(p) - PO(verif_xbase)))
 
 static opus_int32 skip_extension_payload(const unsigned char **pdata, opus_int32 len, opus_int32 *pheader_size,
                                          int id_byte, opus_int32 trailing_short_len)
@@ -59,5 +60,80 @@ __CPROVER_ensures((len > 0 && __CPROVER_return_value >= 0) ==> (__CPROVER_return
 __CPROVER_ensures((len > 0 && __CPROVER_return_value >= 0 && (__CPROVER_old((*pdata)[0]) >> 1) >= 32 && (__CPROVER_old((*pdata)[0]) & 1) == 1) ==>
                   *pheader_size == ((len - __CPROVER_return_value) - *pheader_size) / 255 + 2)
 __CPROVER_ensures((len > 0 && __CPROVER_return_value >= 0 && (__CPROVER_old((*pdata)[0]) >> 1) < 32) ==> *pheader_size == 1)
+/* a short extension (ids 1, 3..31) is its id byte plus L payload bytes: the iterator reads the payload byte of a separator after the skip */
+__CPROVER_ensures((len > 0 && __CPROVER_return_value >= 0 && (__CPROVER_old((*pdata)[0]) >> 1) > 0 && (__CPROVER_old((*pdata)[0]) >> 1) < 32 && (__CPROVER_old((*pdata)[0]) >> 1) != 2) ==>
+                  len - __CPROVER_return_value == 1 + (__CPROVER_old((*pdata)[0]) & 1))
 ;
+
+/* ---- extension iterator (C16): representation invariant, relative to the ghost extension area ---------------------- */
+#define IT_OFF(p) (PO(p) - PO(verif_xbase))
+#define IT_IN(p)  (__CPROVER_same_object((p), verif_xbase) && 0 <= IT_OFF(p))
+/* fields that never change after init */
+#define RI_IT_BASE(it) (0 <= (it)->len && (it)->len <= EXT_LEN_CAP && 0 <= (it)->nb_frames && (it)->nb_frames <= 48 && \
+   ((it)->len > 0 ==> ((it)->data == verif_xbase && (it)->len == verif_xn)) && \
+   ((it)->nb_frames == 0 ==> (it)->frame_max <= 0))     /* init sets frame_max = nb_frames; with no frames nothing may be asked for */
+/* replay cursor: the repeat region [repeat_data, repeat_data+repeat_len) lies behind the read cursor; src walks it */
+#define RI_IT_REPEAT(it) ((it)->repeat_len >= 0 && IT_OFF((it)->repeat_data) + (it)->repeat_len <= IT_OFF((it)->curr_data) && \
+   (it)->src_len >= 0 && IT_IN((it)->src_data) && IT_OFF((it)->repeat_data) <= IT_OFF((it)->src_data) && \
+   IT_OFF((it)->src_data) + (it)->src_len == IT_OFF((it)->repeat_data) + (it)->repeat_len)
+/* a live iterator (curr_len >= 0), in parts so that a refuted clause names what broke */
+#define RI_IT_L1(it) ((it)->curr_len <= (it)->len && 0 <= (it)->curr_frame && (it)->curr_frame <= (it)->nb_frames && \
+   (((it)->curr_len > 0 && (it)->nb_frames > 0) ==> (it)->curr_frame < (it)->nb_frames) && 0 <= (it)->repeat_frame && (it)->repeat_frame <= (it)->nb_frames && \
+   ((it)->repeat_frame > 0 ==> (it)->curr_frame < (it)->repeat_frame) && ((it)->len == 0 ==> (it)->repeat_frame == 0))
+#define RI_IT_L2(it) ((it)->len > 0 ==> (IT_IN((it)->curr_data) && IT_OFF((it)->curr_data) + (it)->curr_len <= (it)->len && \
+      (((it)->curr_len > 0 || (it)->repeat_frame > 0) ==> IT_OFF((it)->curr_data) + (it)->curr_len == (it)->len)))
+#define RI_IT_L3(it) ((it)->len > 0 ==> (IT_IN((it)->repeat_data) && IT_OFF((it)->repeat_data) <= IT_OFF((it)->curr_data)))
+#define RI_IT_L4(it) (0 <= (it)->trailing_short_len && ((it)->len > 0 ==> (it)->trailing_short_len <= IT_OFF((it)->curr_data)))
+#define RI_IT_L5(it) (((it)->len > 0 && (it)->repeat_frame > 0) ==> RI_IT_REPEAT(it))
+#define RI_IT_LIVE(it) (RI_IT_L1(it) && RI_IT_L2(it) && RI_IT_L3(it) && RI_IT_L4(it) && RI_IT_L5(it))
+#define RI_IT(it) (RI_IT_BASE(it) && -1 <= (it)->curr_len && ((it)->curr_len >= 0 ==> RI_IT_LIVE(it)))
+#define IT_FRESH(it) (__CPROVER_is_fresh(it, sizeof(*(it))) && 1 <= verif_xn && verif_xn <= EXT_LEN_CAP && __CPROVER_is_fresh(verif_xbase, verif_xn))
+/* what a reported extension looks like: inside the area, for an existing frame below frame_max */
+#define EXT_OK(it, e) (2 <= (e)->id && (e)->id <= 127 && 0 <= (e)->frame && (e)->frame < (it)->nb_frames && (e)->frame < (it)->frame_max && \
+   (e)->len >= 0 && IT_IN((e)->data) && IT_OFF((e)->data) + (e)->len <= (it)->len && ((e)->id < 32 ==> (e)->len <= 1))
+
+int opus_extension_iterator_next(OpusExtensionIterator *iter, opus_extension_data *ext)
+__CPROVER_requires(IT_FRESH(iter) && (ext == NULL || __CPROVER_is_fresh(ext, sizeof(*ext))))
+__CPROVER_requires(RI_IT(iter))
+__CPROVER_assigns(iter->curr_data, iter->curr_len, iter->repeat_data, iter->last_long, iter->src_data, iter->src_len, iter->repeat_len,
+                  iter->trailing_short_len, iter->curr_frame, iter->repeat_frame, iter->repeat_l)
+__CPROVER_assigns(ext != NULL: __CPROVER_object_whole(ext))
+__CPROVER_ensures(RI_IT_BASE(iter) && -1 <= iter->curr_len)
+__CPROVER_ensures(iter->curr_len >= 0 ==> RI_IT_L1(iter))
+__CPROVER_ensures(iter->curr_len >= 0 ==> RI_IT_L2(iter))
+__CPROVER_ensures(iter->curr_len >= 0 ==> RI_IT_L3(iter))
+__CPROVER_ensures(iter->curr_len >= 0 ==> RI_IT_L4(iter))
+__CPROVER_ensures(iter->curr_len >= 0 ==> RI_IT_L5(iter))
+__CPROVER_ensures(__CPROVER_return_value == 0 || __CPROVER_return_value == 1 || __CPROVER_return_value == OPUS_INVALID_PACKET)
+__CPROVER_ensures(__CPROVER_old(iter->curr_len) < 0 ==> __CPROVER_return_value == OPUS_INVALID_PACKET)
+__CPROVER_ensures((__CPROVER_return_value == 1 && ext != NULL) ==> (2 <= ext->id && ext->id <= 127 && (ext->id < 32 ==> ext->len <= 1)))
+__CPROVER_ensures((__CPROVER_return_value == 1 && ext != NULL) ==> (0 <= ext->frame && ext->frame < iter->nb_frames && ext->frame < iter->frame_max))
+__CPROVER_ensures((__CPROVER_return_value == 1 && ext != NULL) ==> (ext->len >= 0 && IT_IN(ext->data) && IT_OFF(ext->data) + ext->len <= iter->len))
+__CPROVER_ensures(__CPROVER_return_value == 1 ==> iter->curr_len >= 0)
+__CPROVER_ensures(iter->curr_len <= __CPROVER_old(iter->curr_len) || __CPROVER_old(iter->curr_len) < 0)
+;
+
+#define IT_LOOP_FIELDS_REPEAT iter->src_data, iter->src_len, iter->curr_data, iter->curr_len, header_size
+#undef  OPUS_VERIF_LOOP_ext_iter_repeat_frames
+#define OPUS_VERIF_LOOP_ext_iter_repeat_frames \
+  __CPROVER_assigns(iter->repeat_frame, IT_LOOP_FIELDS_REPEAT; ext != NULL: __CPROVER_object_whole(ext)) \
+  __CPROVER_loop_invariant(RI_IT_BASE(iter) && iter->len > 0 && iter->curr_len >= 0 && RI_IT_LIVE(iter) && RI_IT_REPEAT(iter)) \
+  __CPROVER_loop_invariant(1 <= iter->repeat_frame && IT_OFF(iter->curr_data) + iter->curr_len == iter->len) \
+  __CPROVER_loop_invariant(iter->curr_len <= __CPROVER_loop_entry(iter->curr_len)) \
+  __CPROVER_decreases(iter->nb_frames - iter->repeat_frame)
+#undef  OPUS_VERIF_LOOP_ext_iter_repeat_src
+#define OPUS_VERIF_LOOP_ext_iter_repeat_src \
+  __CPROVER_assigns(IT_LOOP_FIELDS_REPEAT; ext != NULL: __CPROVER_object_whole(ext)) \
+  __CPROVER_loop_invariant(RI_IT_BASE(iter) && iter->len > 0 && iter->curr_len >= 0 && RI_IT_LIVE(iter) && RI_IT_REPEAT(iter)) \
+  __CPROVER_loop_invariant(1 <= iter->repeat_frame && iter->repeat_frame < iter->nb_frames && IT_OFF(iter->curr_data) + iter->curr_len == iter->len) \
+  __CPROVER_loop_invariant(iter->curr_len <= __CPROVER_loop_entry(iter->curr_len)) \
+  __CPROVER_decreases(iter->src_len)
+#undef  OPUS_VERIF_LOOP_ext_iter_main
+#define OPUS_VERIF_LOOP_ext_iter_main \
+  __CPROVER_assigns(iter->curr_data, iter->curr_len, iter->repeat_data, iter->last_long, iter->src_data, iter->src_len, iter->repeat_len, \
+                    iter->trailing_short_len, iter->curr_frame, iter->repeat_frame, iter->repeat_l, header_size; ext != NULL: __CPROVER_object_whole(ext)) \
+  __CPROVER_loop_invariant(RI_IT_BASE(iter) && iter->curr_len >= 0 && RI_IT_LIVE(iter) && iter->repeat_frame == 0 && iter->nb_frames > 0) \
+  __CPROVER_loop_invariant(iter->curr_len > 0 ==> iter->curr_frame < iter->frame_max) \
+  __CPROVER_loop_invariant(iter->curr_len <= __CPROVER_loop_entry(iter->curr_len)) \
+  __CPROVER_decreases(iter->curr_len)
 #endif
